@@ -297,3 +297,18 @@ Print Assumptions C08_mapping_assoc_monotone.
 Theorem C08_mapping_nonnegative : forall ms p a, Forall wf_map ms -> 0 <= p -> 0 <= fold_maps ms p a.
 Proof. exact fold_maps_nonneg. Qed.
 Print Assumptions C08_mapping_nonnegative.
+
+(* a position no range touches comes back unchanged through the map and then its inverse, whichever sides are used *)
+Theorem C08_invert_roundtrip_outside : forall pre post p a b,
+  wf_ranges 0 pre -> all_before pre p ->
+  (match post with [] => True | (s, _, _) :: _ => p < s end) ->
+  let m := {| ranges := pre ++ post; inverted := false |} in
+  map (invert m) (map m p a) b = p.
+Proof. exact map_invert_roundtrip_outside. Qed.
+Print Assumptions C08_invert_roundtrip_outside.
+
+Example C08_invert_roundtrip_outside_example :
+  wf_ranges 0 [(2, 0, 3); (5, 2, 1)] /\ all_before [(2, 0, 3); (5, 2, 1)] 9 /\
+  map (invert {| ranges := [(2, 0, 3); (5, 2, 1)] ++ [(12, 1, 4)]; inverted := false |})
+      (map {| ranges := [(2, 0, 3); (5, 2, 1)] ++ [(12, 1, 4)]; inverted := false |} 9 1) (-1) = 9.
+Proof. split; [simpl; lia|]. split; [simpl; lia|]. vm_compute; reflexivity. Qed.
